@@ -282,9 +282,15 @@ def two_run(cfg, trace, info, server_opts):
                 fails.append((None, '%s answers differently when the offender is present: %r / %r' % (op2['op'], r1, im2['result'])))
                 break
     # the offender's own traffic: nothing goes to anybody else, nothing undecodable reaches a handler
+    cf = S.ClientFrames()
     for op, im, _ in trace:
         if op.get('t') != OFF or op['op'] not in ('frame', 'frameval'):
+            if op['op'] == 'lost' and op.get('t') == OFF:
+                cf.drop(OFF)
             continue
+        if not server_opts and cf.feed(op) == 'undecodable' and im['invokes']:
+            fails.append((None, 'a packet that cannot be decoded (text frame + attachments do not reconstruct) reached an '
+                                'application handler: %r -> %r' % (S._brief(op), im['invokes'])))
         for t, fr in im['sends'].items():
             if t != OFF:
                 fails.append((None, 'a frame from the offender made the server send to %s: %r -> %r' % (t, S._brief(op), fr)))
